@@ -40,6 +40,8 @@ pub enum Take {
     RejectedInsert { u: usize },
     /// a path or cycle search whose `Path` goes through its whole API and is dropped
     PathApi { root: usize, target: usize, kind: SKind, cycle: bool },
+    /// edges (a,b) and (c,d) carrying the SAME value are compared, ordered, sorted, reversed
+    EdgeCmp { a: usize, b: usize, c: usize, d: usize },
 }
 
 #[derive(Clone, Copy, Debug, Serialize, Deserialize, PartialEq)]
@@ -242,6 +244,15 @@ fn take<F: Flavour>(w: &World<F>, t: &Take) -> Option<Slot<F>> {
         Take::PathApi { root, target, kind, cycle } if ok(*root) && ok(*target) => {
             let sp = spec(*kind, if *cycle { SMode::Cycle } else { SMode::Path }, if *cycle { None } else { Some(*target) });
             let _ = F::path_info(&w.nodes[*root], &sp);
+            None
+        }
+        Take::EdgeCmp { a, b, c, d } if ok(*a) && ok(*b) && ok(*c) && ok(*d) => {
+            let e1 = (w.nodes[*a].clone(), w.nodes[*b].clone(), crate::payload::EVal::new(777));
+            let e2 = (w.nodes[*c].clone(), w.nodes[*d].clone(), crate::payload::EVal::new(777));
+            let _ = F::edge_eq(&e1, &e2);
+            let _ = F::edge_cmp(&e1, &e2);
+            let _ = F::edge_sort(&[e1.clone(), e2.clone(), e1.clone()]);
+            let _ = F::edge_reverse(&e2);
             None
         }
         Take::ToVec { members } => {
@@ -492,6 +503,7 @@ impl Engine for Lifetime {
                     0 => Take::RoundTrip { cbor: rng.coin() },
                     1 => Take::GraphOps { members: subset(rng) },
                     2 => Take::RejectedInsert { u },
+                    3 if rng.coin() => Take::EdgeCmp { a: u, b: v, c: rng.below(n), d: rng.below(n) },
                     3 => Take::PathApi { root: u, target: v, kind: *rng.pick(&kinds), cycle: rng.chance(1, 3) },
                     _ => Take::ToVec { members: subset(rng) },
                 },
